@@ -533,11 +533,11 @@ func c18Shift(c *core.Ctx, pkg *packages.Package) {
 		parents := parentMap(fn.Decl.Body)
 		ast.Inspect(fn.Decl.Body, func(n ast.Node) bool {
 			rs, ok := n.(*ast.RangeStmt)
-			if !ok || len(rs.Body.List) != 1 {
+			if !ok || len(an.Effective(rs.Body.List)) != 1 {
 				return true
 			}
 			// the loop whose body is one SetTime on the ranged slice's element
-			if es, ok := rs.Body.List[0].(*ast.ExprStmt); !ok || !strings.HasPrefix(types.ExprString(es.X), types.ExprString(rs.X)+"[") || !strings.Contains(types.ExprString(es.X), "].SetTime(") {
+			if es, ok := an.Effective(rs.Body.List)[0].(*ast.ExprStmt); !ok || !strings.HasPrefix(types.ExprString(es.X), types.ExprString(rs.X)+"[") || !strings.Contains(types.ExprString(es.X), "].SetTime(") {
 				return true
 			}
 			shiftLoop = rs
@@ -560,8 +560,8 @@ func c18Shift(c *core.Ctx, pkg *packages.Package) {
 			return true
 		})
 		okLoop := false
-		if shiftLoop != nil && len(shiftLoop.Body.List) == 1 {
-			if es, ok := shiftLoop.Body.List[0].(*ast.ExprStmt); ok {
+		if shiftLoop != nil && len(an.Effective(shiftLoop.Body.List)) == 1 {
+			if es, ok := an.Effective(shiftLoop.Body.List)[0].(*ast.ExprStmt); ok {
 				sl, ix := types.ExprString(shiftLoop.X), types.ExprString(shiftLoop.Key)
 				txt := types.ExprString(es.X)
 				pre, post := sl+"["+ix+"].SetTime("+sl+"["+ix+"].Time().Add(", ").UTC())"
